@@ -1190,3 +1190,14 @@ package op
 //@        ==> callarg("op.AuthStorage.RevokeToken", 1) == callres("op.getTokenIDAndSubjectForRevocation", 0) && callarg("op.AuthStorage.RevokeToken", 2) == callres("op.getTokenIDAndSubjectForRevocation", 1)
 //@   ensures known-refresh-token-id-is-revoked: called("op.AuthStorage.RevokeToken") && called("op.AuthStorage.GetRefreshTokenInfo") && callres("op.AuthStorage.GetRefreshTokenInfo", 2) == nil
 //@        ==> callarg("op.AuthStorage.RevokeToken", 1) == callres("op.AuthStorage.GetRefreshTokenInfo", 1) && callarg("op.AuthStorage.RevokeToken", 2) == callres("op.AuthStorage.GetRefreshTokenInfo", 0)
+
+// ---- C16: the user code has the configured format: charAmount characters, a dash before every
+// dashInterval-th character after the first group (Sb_runes: runes written to the builder so far) ----
+//@ spec func dashesBefore(i int, dashInterval int) int = ite(dashInterval > 0 && i > 0, (i - 1) / dashInterval, 0)
+//@ loop op.NewUserCode#1
+//@   invariant counter: i >= 0 && (i <= charAmount || charAmount < 0)
+//@   invariant written-so-far: dashInterval >= 0 ==> Sb_runes[addr(buf)] == i + dashesBefore(i, dashInterval)
+//@ func op.NewUserCode
+//@   modifies nothing
+//@   ensures format-length: err == nil && charAmount >= 0 && dashInterval >= 0 ==> runeCount(result0) == charAmount + dashesBefore(charAmount, dashInterval)
+//@   ensures fail-empty: err != nil ==> result0 == ""
